@@ -1,14 +1,14 @@
-From Tetl Require Import Lib.Base C19.Model C19.Spec.
+From Tetl Require Import Lib.Base C19.Slices C19.Model C19.Spec.
 Require Extraction.
 Require Import ExtrOcamlBasic.
 Extraction Language OCaml.
 Extraction "C19_model.ml" wire_anchor
   i8 u8 i16 u16 i32 u32 i64 u64 in_ty imax szw cast to_size_type
-  rank rank_dynamic dynamic_index extent extents_list ext_default ext_from_span ext_from_pack ext_convert
+  rank rank_dynamic dynamic_index extent extents_list ext_default ext_from_span ext_from_pack ext_convert ext_eqb
   fwd_prod rev_prod lay_stride lay_strides lay_required lay_map
   strided_ctor strided_stride strided_map
   tr_extents tr_required tr_map tr_stride
-  mds_offset mds_size mds_empty mda_container_size sub_extents
+  mds_offset mds_get mds_size mds_empty mda_container_size sub_extents sub_extents_p
   mk_span sp_first_s sp_last_s sp_first_d sp_last_d sp_sub_s sp_sub_d sp_index sp_elems all_indices
   product row_major col_major stride_left stride_right dot span_max stride_required
-  extents_all extents_dyn keep_full sub_range.
+  extents_all extents_dyn keep_full sub_shape sub_pattern sub_range.
